@@ -127,6 +127,20 @@ def make_tempo(fail):
     import oqupy
     pr = StepProbe(fail)
     sd = probes.make_probe_sd(_bath(DT), DT)
+    if fail[1] == "C":
+        # the user's bath correlation function raises once: beyond the memory cut-off one new 2D integral (a rectangle) is
+        # requested per step; the failure is injected into the request of step fail[0] + 1
+        real_2d = sd.correlation_2d_integral
+
+        def failing_2d(*a, **kw):
+            shape = kw.get("shape", a[3] if len(a) > 3 else None)
+            if pr.armed and not pr.fired and shape == "rectangle":
+                t2 = kw.get("time_2", a[2] if len(a) > 2 else None)
+                if t2 is not None and int(round(t2 / DT)) == fail[0] + 1:
+                    pr.fired = True
+                    raise Injected("correlation function at step %d" % (fail[0] + 1))
+            return real_2d(*a, **kw)
+        sd.correlation_2d_integral = failing_2d
     bath = oqupy.Bath(0.5 * SZ, sd)
     params = oqupy.TempoParameters(dt=DT, epsrel=1e-14, dkmax=2, add_correlation_time=DT,
                                    subdiv_limit=None)
@@ -453,9 +467,47 @@ def replay_case(case):
 
 # ------------------------------------------------------------------------------ run
 
+def truncating_split_job(job):
+    """Numerical: with a truncation threshold that actually truncates (epsrel 1e-5, generic spin-boson model), splitting the
+    computation into several calls - repeated and lower targets in between - leaves the states a single call gives (1e-9:
+    the carried network must not be re-truncated or otherwise touched at a call boundary)."""
+    import oqupy
+    kind, seed = job
+    r = probes.rng_for(seed, "c14-trunc", kind)
+    sx, sz = SX, SZ
+    corr = oqupy.PowerLawSD(alpha=0.3 + 0.2 * r.random(), zeta=1.0, cutoff=3.0, cutoff_type="exponential", temperature=0.2)
+    bath = oqupy.Bath(0.5 * sz, corr)
+    params = oqupy.TempoParameters(dt=0.1, epsrel=1e-5, dkmax=4)
+    rho = np.array([[0.8, 0.3 - 0.1j], [0.3 + 0.1j, 0.2]])
+    h = (0.6 + 0.4 * r.random()) * sx + 0.2 * sz
+
+    def mk():
+        if kind == "tempo":
+            return oqupy.Tempo(oqupy.System(h), bath, params, rho.copy(), 0.0)
+        fs = oqupy.TimeDependentSystemWithField(lambda t, a: h + 0.2 * a.real * sz)
+        mfs = oqupy.MeanFieldSystem([fs], field_eom=lambda t, st, a: -0.5j * a - 0.2j * np.trace(st[0] @ SM))
+        return oqupy.MeanFieldTempo(mfs, [bath], params, [rho.copy()], 0.3 + 0j, 0.0)
+
+    def states(d):
+        return np.array(d.states if kind == "tempo" else d.system_dynamics[0].states)
+    try:
+        one = states(mk().compute(1.01, progress_type="silent"))
+        t = mk()
+        for end in (0.31, 0.31, 0.61, 0.21, 1.01):
+            d = t.compute(end, progress_type="silent")
+        many = states(d)
+    except Exception as ex:  # pylint: disable=broad-except
+        return [{"what": "exception", "detail": "%s: %s" % (type(ex).__name__, str(ex)[:150])}]
+    if one.shape != many.shape or np.max(np.abs(one - many)) > 1e-9:
+        return [{"what": "split-differs-with-truncation", "kind": kind,
+                 "err": float(np.max(np.abs(one - many))) if one.shape == many.shape else "shape"}]
+    return []
+
+
 KINDS = {
     # kind: (FailSet, PreSet, known deviation or None, all deviations for adequacy)
-    "tempo": ('{<<99,"none">>} \\cup {<<k,"H">> : k \\in 0..(MaxStep-1)}', "{{}}", None, ["StepBeforeEval"]),
+    "tempo": ('{<<99,"none">>} \\cup {<<k,"H">> : k \\in 0..(MaxStep-1)} \\cup {<<k,"C">> : k \\in 2..(MaxStep-1)}', "{{}}", None,
+              ["StepBeforeEval", "HalfStepBeforeCorr"]),
     "mf": ('{<<99,"none">>} \\cup {<<k,s>> : k \\in 0..(MaxStep-1), s \\in {"deriv","H","H2","rk1","rk2"}}', "{{}}",
            "MFMutateBeforeField", ["MFMutateBeforeField"]),
     "tebd": ('{<<99,"none">>}', "SUBSET (0..MaxStep)", "RestartReappliesPre", ["RestartReappliesPre"]),
@@ -516,6 +568,11 @@ def run(ctx):
         if dev and not mm:
             ctx.note("history with trigger for %s matched the strict spec (finding did not reproduce there): %s" % (dev, cid))
     ctx.extra["histories_with_known_trigger"] = ntrig
+    tjobs = [(k_, ctx.seed + i) for k_ in ("tempo", "mf") for i in range(2 if quick else 6)]
+    for j, mm in zip(tjobs, core.pmap(truncating_split_job, tjobs)):
+        ctx.case({"truncating_split": {"kind": j[0], "seed": j[1]}}, nontrivial=True)
+        for x in mm:
+            ctx.violation("C14:%s:%s" % (j[0], x["what"]), "%s: %s" % (j, x), {"truncating_split": list(j)})
     # ---- code -> spec: traces of the repository's own test-suite and of a randomised driver, validated by TLC
     from harness import trace_validate
     trace_validate.run(ctx, "C14")
@@ -535,6 +592,11 @@ def run(ctx):
 def replay(ctx, rep):
     core._init_worker()
     case = rep["case"]
+    if "truncating_split" in case:
+        ctx.case({"replay": True})
+        for x in truncating_split_job(tuple(case["truncating_split"])):
+            ctx.violation("C14:replay:" + x["what"], str(x), case)
+        return
     if "trace_events" in case:
         from harness import trace_validate
         trace_validate.replay(ctx, case, "C14")
